@@ -666,6 +666,24 @@ Ltac pc_state_cases s A1 :=
   let Epc := fresh "Epc" in let Est := fresh "Est" in
   destruct (pc s) eqn:Epc; destruct (state s) eqn:Est; simp_fn; try discriminate A1; clear A1.
 
+(* the same, but the lifecycle state stays abstract at the pcs where the task is live *)
+Ltac pc_cases s A1 H :=
+  let Epc := fresh "Epc" in let Est := fresh "Est" in
+  destruct (pc s) eqn:Epc; simp_fn;
+  try (lazymatch type of A1 with
+       | live_state _ = true => fail
+       | _ => destruct (state s) eqn:Est; try discriminate A1; rewrite ?Est in H; ev_eqb_in H
+       end).
+(* destruct an innermost match of H *)
+Ltac bm_inner H :=
+  match type of H with
+  | context [match ?x with _ => _ end] =>
+      lazymatch x with
+      | context [match _ with _ => _ end] => fail
+      | _ => destruct x eqn:?
+      end
+  end.
+
 Lemma req_result_same s e s' o : RE.req_result P D s e = (s', o) -> samecb s s'.
 Proof. unfold RE.req_result. destruct (RE.mreq P D s); intros H; inversion H; subst; same_tac. Qed.
 
@@ -673,6 +691,9 @@ Ltac sleaf :=
   norm; use_allowed;
   repeat match goal with H : RE.req_result _ _ _ _ = _ |- _ => apply req_result_same in H end;
   frames; left; fin.
+
+Lemma Inv_samecb s s' : samecb s s' -> Inv s -> Inv s'.
+Proof. intros Hs HI. destruct (pc s) eqn:Epc; fin. Qed.
 
 Ltac step_intro HI H A1 :=
   intros HI H;
@@ -716,20 +737,17 @@ Qed.
 
 Lemma step_reqabort rs s s' o : Inv s -> step s (EvReqAbort rs) = (s', o) -> Inv s' \/ OOF s' o.
 Proof.
-  step_intro HI H A1. simp_st. pc_state_cases s A1;
-    rewrite ?Est in H; ev_eqb_in H; repeat (bm_hyp H); sleaf.
+  step_intro HI H A1. simp_st. pc_cases s A1 H; eqb_cases H; repeat (bm_inner H); sleaf.
 Qed.
 
 Lemma step_reqstop s s' o : Inv s -> step s EvReqStop = (s', o) -> Inv s' \/ OOF s' o.
 Proof.
-  step_intro HI H A1. simp_st. pc_state_cases s A1;
-    rewrite ?Est in H; ev_eqb_in H; repeat (bm_hyp H); sleaf.
+  step_intro HI H A1. simp_st. pc_cases s A1 H; eqb_cases H; repeat (bm_inner H). all: sleaf.
 Qed.
 
 Lemma step_reqhalt s s' o : Inv s -> step s EvReqHalt = (s', o) -> Inv s' \/ OOF s' o.
 Proof.
-  step_intro HI H A1. simp_st. pc_state_cases s A1;
-    rewrite ?Est in H; ev_eqb_in H; repeat (bm_hyp H); sleaf.
+  step_intro HI H A1. simp_st. pc_cases s A1 H; eqb_cases H; repeat (bm_inner H); sleaf.
 Qed.
 
 Lemma step_small e s s' o :
@@ -746,8 +764,17 @@ Qed.
 Lemma step_reqsuspend sid pre post s s' o :
   Inv s -> step s (EvReqSuspend sid pre post) = (s', o) -> Inv s' \/ OOF s' o.
 Proof.
-  step_intro HI H A1. unfold RE.resumable in H. simp_st. pc_state_cases s A1;
-    rewrite ?Est in H; ev_eqb_in H; repeat (bm_hyp H; simp_st; rewrite ?Est in *; try ev_eqb_in H).
+  intros HI H. cbn [RE.step] in H.
+  match type of H with
+  | context [RE.set_futs P D s ?f] =>
+      assert (Hs0 : samecb s (RE.set_futs P D s f)) by same_tac;
+      generalize dependent (RE.set_futs P D s f)
+  end.
+  intros s0 H Hs0. apply (Inv_samecb _ _ Hs0) in HI. clear s Hs0. rename s0 into s.
+  assert (A1 : pc_state_ok (pc s) (state s) = true) by apply HI.
+  unfold RE.resumable in H.
+  destruct (cache s) eqn:Ec; cbn [negb] in H; simp_st; pc_cases s A1 H; eqb_cases H;
+    repeat (bm_inner H; simp_st; try (eqb_cases H)).
   all: sleaf.
 Qed.
 
@@ -777,7 +804,6 @@ Proof.
   right. intros [Hx _]. discriminate Hx.
 Qed.
 
-End WithEscape.
 (* ------------------------------------------------------------------ out of fuel is absorbing *)
 Definition oof (s : st) : Prop := pc s = PcNone /\ state s <> Idle.
 
@@ -801,10 +827,259 @@ Proof.
   - simp_st. eqb_cases H; repeat (bm_hyp H); oleaf.
   - simp_st. eqb_cases H; repeat (bm_hyp H); oleaf.
   - simp_st. eqb_cases H; repeat (bm_hyp H); oleaf.
-  - unfold RE.resumable in H. simp_st. repeat (bm_hyp H; simp_st); oleaf.
+  - unfold RE.resumable in H. simp_st. eqb_cases H; repeat (bm_inner H; simp_st; try (eqb_cases H)); oleaf.
   - oleaf.
   - repeat (bm_hyp H); oleaf.
   - oleaf.
   - destruct Ho as [Hpc Hst]. rewrite Hpc in H. inversion H; subst. split; assumption.
+Qed.
+
+(* ------------------------------------------------------------------ schedules *)
+(* no event of the schedule releases the permit of a paused, still interrupted engine *)
+Fixpoint sched_ok (s : st) (evs : list event) : Prop :=
+  match evs with
+  | [] => True
+  | e :: evs' => spurious_permit s e = false /\ sched_ok (fst (step s e)) evs'
+  end.
+
+Lemma run_oof evs : forall s, oof s -> oof (fst (run s evs)).
+Proof.
+  induction evs as [|e evs IH]; intros s Ho; cbn [RE.run].
+  - exact Ho.
+  - destruct (step s e) as [s1 o1] eqn:E1. pose proof (step_oof s e Ho) as H1. rewrite E1 in H1. cbn [fst] in H1.
+    specialize (IH s1 H1). destruct (run s1 evs) as [s2 o2]. exact IH.
+Qed.
+
+Lemma run_inv evs : forall s,
+  (~ sched_ok s evs -> G) -> Inv s ->
+  Inv (fst (run s evs)) \/ (oof (fst (run s evs)) /\ In (OBad 1) (snd (run s evs))).
+Proof.
+  induction evs as [|e evs IH]; intros s Hs HI; cbn [RE.run].
+  - left; exact HI.
+  - destruct (step s e) as [s1 o1] eqn:E1.
+    assert (Hsp : spurious_permit s e = true -> G).
+    { intros Ht. apply Hs. cbn [sched_ok]. intros [Hf _]. rewrite Ht in Hf. discriminate Hf. }
+    destruct (step_inv s e s1 o1 Hsp HI E1) as [HI1|(Hpc & Hst & Hin)].
+    + assert (Hs1 : ~ sched_ok s1 evs -> G).
+      { intros Hn. apply Hs. cbn [sched_ok]. intros [_ Hok]. rewrite E1 in Hok. exact (Hn Hok). }
+      specialize (IH s1 Hs1 HI1). destruct (run s1 evs) as [s2 o2]. cbn [fst snd] in *.
+      destruct IH as [IH|[IH1 IH2]]; [left; exact IH | right; split; [exact IH1 | apply in_or_app; right; exact IH2]].
+    + pose proof (run_oof evs s1 (conj Hpc Hst)) as Ho. destruct (run s1 evs) as [s2 o2]. cbn [fst snd] in *.
+      right; split; [exact Ho | apply in_or_app; left; exact Hin].
+Qed.
+
+End WithEscape.
+(* ================================================================== consequences of [Inv] *)
+Section Consequences.
+Variable G : Prop.
+
+(* (I1) the pc determines the lifecycle state up to the requests that do not move the task *)
+Lemma inv_pc_state s : Inv G s -> pc_state_ok (pc s) (state s) = true.
+Proof. intros HI; apply HI. Qed.
+
+Lemma inv_never_panicked s : Inv G s -> state s <> Panicked.
+Proof. intros HI E. pose proof (inv_pc_state s HI) as H. rewrite E in H. destruct (pc s); discriminate H. Qed.
+
+(* (I2)/(T1) *)
+Lemma inv_blocking_pc s : Inv G s -> blocking s = true -> blk_pc (pc s) = true.
+Proof. intros HI; apply HI. Qed.
+
+Lemma inv_quiescent s :
+  Inv G s -> blocking s = true ->
+  state s = Idle \/ state s = Paused \/
+  (pc s = PcPaused /\ (state s = Aborting \/ state s = Stopping \/ state s = Halting)).
+Proof.
+  intros HI Hb. pose proof (inv_pc_state s HI) as H1. pose proof (inv_blocking_pc s HI Hb) as H2.
+  destruct (pc s); try discriminate H2; destruct (state s); try discriminate H1; auto 6.
+Qed.
+
+(* (I3), (I5), (T2) *)
+Lemma inv_paused_pc s : Inv G s -> pc s = PcPaused -> must_cancel s = false /\ resumable s = true.
+Proof. intros HI Hp. destruct HI as (_ & _ & H3 & _). destruct (H3 Hp) as (A & B & _). split; assumption. Qed.
+
+Lemma inv_paused_blocking_no_permit s :
+  Inv G s -> pc s = PcPaused -> blocking s = true -> permit s = false.
+Proof. intros HI Hp. destruct HI as (_ & _ & H3 & _). destruct (H3 Hp) as (_ & _ & C). exact C. Qed.
+
+Lemma inv_paused_is_resumable s : Inv G s -> state s = Paused -> resumable s = true /\ pc s = PcPaused.
+Proof.
+  intros HI Hs. pose proof (inv_pc_state s HI) as H1. rewrite Hs in H1.
+  destruct (pc s) eqn:Epc; try discriminate H1. split; [|reflexivity].
+  apply (inv_paused_pc s HI Epc).
+Qed.
+
+(* (T3) *)
+Lemma inv_done_is_idle s r : Inv G s -> pc s = PcDone r -> state s = Idle /\ bundlers s = [].
+Proof.
+  intros HI Hp. pose proof (inv_pc_state s HI) as H1. rewrite Hp in H1.
+  destruct (state s) eqn:Es; try discriminate H1. split; [reflexivity|].
+  destruct HI as (_ & _ & _ & _ & _ & _ & H7 & _). exact (H7 Es).
+Qed.
+
+Lemma inv_idle_no_open_runs s : Inv G s -> state s = Idle -> bundlers s = [].
+Proof. intros HI. destruct HI as (_ & _ & _ & _ & _ & _ & H7 & _). exact H7. Qed.
+
+(* (I4)/(T4) *)
+Lemma inv_stacks_aligned s : Inv G s -> stack_a s.
+Proof. intros HI; apply HI. Qed.
+
+(* the source's `assert len(self._response_stack) == len(self._plan_stack)` at the loop body:
+   whenever the interpreter is at CBody in a state satisfying its invariant the test succeeds,
+   so [drive] does not take the EAssertion exit there *)
+Lemma cbody_assert_holds s :
+  DInv G CBody s -> negb (Nat.eqb (List.length (resps s)) (List.length (plans s))) = false.
+Proof.
+  intros (_ & _ & _ & H4 & _). cbn [stack_c] in H4. rewrite H4, Nat.eqb_refl. reflexivity.
+Qed.
+Lemma cbody_no_assert_exit fuel s os :
+  DInv G CBody s ->
+  drive (S fuel) s CBody os =
+  match stashed s with
+  | None => (RE.set_pc P D s PcSleep0, os ++ [OTask WSleep0])
+  | Some _ => drive fuel s CAfterSleep os
+  end.
+Proof. intros HD. cbn [RE.drive]. rewrite (cbody_assert_holds s HD). reflexivity. Qed.
+(* the only await point from which `_run` re-enters the loop at CBody *)
+Lemma paused_resume_aligned s :
+  Inv G s -> pc s = PcPaused -> List.length (resps s) = List.length (plans s).
+Proof. intros HI Hp. pose proof (inv_stacks_aligned s HI) as H. unfold stack_a in H. rewrite Hp in H. exact H. Qed.
+
+(* the cleanup (`finally`) of `_run` is never refused the move to idle *)
+Lemma cleanup_reaches_idle s r pend :
+  Inv G s -> pc s = PcFinalSleep r ->
+  state (fst (finalize s r pend)) = Idle /\
+  pc (fst (finalize s r pend)) = PcDone (final_res s r pend).
+Proof.
+  intros HI Hp. pose proof (inv_pc_state s HI) as H1. rewrite Hp in H1. cbn [pc_state_ok] in H1.
+  destruct (finalize s r pend) as [s' o] eqn:Ef. apply finalize_spec in Ef.
+  - cbn [fst]. destruct Ef as (A & _ & _ & B & _). split; assumption.
+  - apply allowed_to_idle; left; exact H1.
+Qed.
+Lemma cleanup_reaches_idle_drive s r pend :
+  DInv G (CFinalize r pend) s ->
+  state (fst (finalize s r pend)) = Idle /\
+  pc (fst (finalize s r pend)) = PcDone (final_res s r pend).
+Proof.
+  intros HD. destruct HD as (H1 & _).
+  destruct (finalize s r pend) as [s' o] eqn:Ef. apply finalize_spec in Ef.
+  - cbn [fst]. destruct Ef as (A & _ & _ & B & _). split; assumption.
+  - apply allowed_to_idle; left; exact H1.
+Qed.
+
+(* (I6) *)
+Lemma inv_interrupted_has_cause s : Inv G s -> interrupted s = true -> icause s <> None.
+Proof. intros HI; apply HI. Qed.
+
+Lemma inv_pausing_interrupted s : Inv G s -> state s = Pausing -> interrupted s = true.
+Proof. intros HI; apply HI. Qed.
+
+Lemma inv_interrupted_idle_cause s r :
+  Inv G s -> pc s = PcDone r -> normal_done r = true ->
+  interrupted s = true -> icause s = Some CzPause ->
+  late_pause s = true \/ intr_err s = true \/ G.
+Proof.
+  intros HI Hp Hn Hi Hc.
+  pose proof (inv_done_is_idle s r HI Hp) as [Hs _].
+  destruct HI as (_ & _ & _ & _ & _ & _ & _ & _ & _ & [g|H10]); [auto|].
+  destruct (late_pause s) eqn:El; [auto|]. destruct (intr_err s) eqn:Ee; [auto|].
+  exfalso. unfold R6, PR in H10. rewrite Hs, Hp, Hi, Hc, El, Ee in H10.
+  destruct H10 as [(Hx & _)|[(Hx & _)|Hx]]; auto; try discriminate Hx.
+  rewrite Hn in Hx. discriminate Hx.
+Qed.
+End Consequences.
+
+(* ================================================================== reachable states *)
+Definition escape (s0 : st) (evs : list event) : Prop := pause_hook_ctl \/ ~ sched_ok s0 evs.
+
+Theorem reach_inv d paus stag rec evs :
+  let s0 := init d paus stag rec in
+  Inv (escape s0 evs) (fst (run s0 evs)) \/
+  (oof (fst (run s0 evs)) /\ In (OBad 1) (snd (run s0 evs))).
+Proof.
+  intros s0. apply run_inv.
+  - intros H; left; exact H.
+  - intros H; right; exact H.
+  - apply Inv_init.
+Qed.
+
+Section Reach.
+Variables (d : D) (paus stag : list nat) (rec : bool) (evs : list event).
+Let s0 := init d paus stag rec.
+Let sN := fst (run s0 evs).
+Let oN := snd (run s0 evs).
+
+Lemma reach_Inv : ~ In (OBad 1) oN -> Inv (escape s0 evs) sN.
+Proof. intros Hno. destruct (reach_inv d paus stag rec evs) as [H|[_ H]]; [exact H | contradiction]. Qed.
+
+Theorem pc_state_typing : ~ In (OBad 1) oN -> pc_state_ok (pc sN) (state sN) = true.
+Proof. intros Hno. eapply inv_pc_state, reach_Inv, Hno. Qed.
+
+Theorem quiescent_state :
+  ~ In (OBad 1) oN -> blocking sN = true ->
+  state sN = Idle \/ state sN = Paused \/
+  (pc sN = PcPaused /\ (state sN = Aborting \/ state sN = Stopping \/ state sN = Halting)).
+Proof. intros Hno. eapply inv_quiescent, reach_Inv, Hno. Qed.
+
+Theorem blocking_pc : ~ In (OBad 1) oN -> blocking sN = true -> blk_pc (pc sN) = true.
+Proof. intros Hno. eapply inv_blocking_pc, reach_Inv, Hno. Qed.
+
+Theorem paused_is_resumable :
+  ~ In (OBad 1) oN -> state sN = Paused -> resumable sN = true /\ pc sN = PcPaused.
+Proof. intros Hno. eapply inv_paused_is_resumable, reach_Inv, Hno. Qed.
+
+Theorem paused_pc_checkpoint :
+  ~ In (OBad 1) oN -> pc sN = PcPaused -> must_cancel sN = false /\ resumable sN = true.
+Proof. intros Hno. eapply inv_paused_pc, reach_Inv, Hno. Qed.
+
+Theorem done_is_idle r :
+  ~ In (OBad 1) oN -> pc sN = PcDone r -> state sN = Idle /\ bundlers sN = [].
+Proof. intros Hno. eapply inv_done_is_idle, reach_Inv, Hno. Qed.
+
+Theorem idle_no_open_runs : ~ In (OBad 1) oN -> state sN = Idle -> bundlers sN = [].
+Proof. intros Hno. eapply inv_idle_no_open_runs, reach_Inv, Hno. Qed.
+
+Theorem stacks_aligned : ~ In (OBad 1) oN -> stack_a sN.
+Proof. intros Hno. eapply inv_stacks_aligned, reach_Inv, Hno. Qed.
+
+Theorem cleanup_never_stranded r pend :
+  ~ In (OBad 1) oN -> pc sN = PcFinalSleep r ->
+  state (fst (finalize sN r pend)) = Idle /\ pc (fst (finalize sN r pend)) = PcDone (final_res sN r pend).
+Proof. intros Hno. eapply cleanup_reaches_idle, reach_Inv, Hno. Qed.
+
+Theorem interrupted_has_cause : ~ In (OBad 1) oN -> interrupted sN = true -> icause sN <> None.
+Proof. intros Hno. eapply inv_interrupted_has_cause, reach_Inv, Hno. Qed.
+
+(* full form: the escapes appear as disjuncts *)
+Theorem interrupted_idle_cause_full r :
+  ~ In (OBad 1) oN -> pc sN = PcDone r -> normal_done r = true ->
+  interrupted sN = true -> icause sN = Some CzPause ->
+  late_pause sN = true \/ intr_err sN = true \/ pause_hook_ctl \/ ~ sched_ok s0 evs.
+Proof.
+  intros Hno Hp Hn Hi Hc.
+  destruct (inv_interrupted_idle_cause _ _ _ (reach_Inv Hno) Hp Hn Hi Hc) as [H|[H|[H|H]]]; auto.
+Qed.
+
+Theorem interrupted_idle_cause r :
+  ~ pause_hook_ctl -> sched_ok s0 evs ->
+  ~ In (OBad 1) oN -> pc sN = PcDone r -> normal_done r = true ->
+  interrupted sN = true -> icause sN = Some CzPause ->
+  late_pause sN = true \/ intr_err sN = true.
+Proof.
+  intros Hh Hs Hno Hp Hn Hi Hc.
+  destruct (interrupted_idle_cause_full r Hno Hp Hn Hi Hc) as [H|[H|[H|H]]]; auto; contradiction.
+Qed.
+End Reach.
 
 End Inv.
+
+Print Assumptions reach_inv.
+Print Assumptions step_inv.
+Print Assumptions pc_state_typing.
+Print Assumptions quiescent_state.
+Print Assumptions paused_is_resumable.
+Print Assumptions done_is_idle.
+Print Assumptions stacks_aligned.
+Print Assumptions cleanup_never_stranded.
+Print Assumptions cbody_no_assert_exit.
+Print Assumptions interrupted_idle_cause_full.
+Print Assumptions interrupted_idle_cause.
